@@ -263,6 +263,60 @@ class C01(Prop):
         return shrink_bytes(case, still_fails)
 
 
+class C02(Prop):
+    id = "C02"
+    rule = ("P: DNSSector::parse on the packet families of C01 (valid under every pointer layout; one-clause-at-a-time boundary damage: "
+            "63/64-byte labels, 255/256-byte names, 16/17 pointers, forward/self/root pointers, pointers into the header, bad characters, "
+            "A/AAAA lengths, rdlen off by one, names not filling NS/CNAME/PTR/MX/SOA/DNAME data, OPT placement / duplication / owner / option "
+            "tiling, trailing bytes, QR gating, qdcount 0/2, class != IN, lying counts; mutated and arbitrary bytes). The verdict is compared "
+            "in BOTH directions with an independent executable recogniser of the policy (gen/dnsgen.py wf_ref) and with the model. "
+            "Non-trivial: packet has at least a header; distinct = distinct packet.")
+    strength = ("full statement: for every byte string, parse p = Ok _ <-> wf_packet p, where wf_packet is an inductive/declarative statement "
+                "of the policy that does not mention the parser's control flow (C02_parse_sound, C02_parse_complete, C02_parse_ok_iff_wf, "
+                "C02_name_policy); unbounded, closed under the global context.")
+    assumptions = ["bytes < 256"]
+    generated = ["Constants"]
+
+    def gen(self, rng, tier):
+        cases = []
+        for i, (fam, b) in enumerate(packet_families(rng, tier, scale=1.5)):
+            cases.append(Case("p%d" % i, "P," + hx(b), {"family": "P/" + fam, "len": len(b), "pkt": b.hex()}))
+        return cases
+
+    def oracle(self, case, io):
+        w = no_crash(io)
+        if w:
+            return w
+        b = bytes.fromhex(case.meta["pkt"]) if case.meta.get("pkt") else b""
+        accepted = io[0].startswith("OK")
+        wf = G.wf_ref(b)
+        if accepted and not wf:
+            try:
+                G.decode_ref(b)
+                reason = "?"
+            except G.Reject as e:
+                reason = str(e)
+            except IndexError:
+                reason = "truncated"
+            return "the parser accepted a packet that is not well-formed under the policy (%s)" % reason
+        if wf and not accepted:
+            return "the parser turned away a well-formed packet: " + io[0]
+        return None
+
+    def classify(self, case, why):
+        return "policy"
+
+    def nontrivial(self, case, io):
+        return hash(case.line) if case.meta.get("len", 0) >= 12 else None
+
+    def tags(self, case, io):
+        return ["accepted" if io and io[0].startswith("OK") else "rejected"]
+
+    def shrink(self, case, still_fails):
+        c = shrink_bytes(case, lambda cc: still_fails(Case(cc.id, cc.line, dict(cc.meta, pkt=cc.line.split(",")[1] if cc.line.split(",")[1] != "-" else ""))))
+        return Case(c.id, c.line, dict(c.meta, pkt=c.line.split(",")[1] if c.line.split(",")[1] != "-" else ""))
+
+
 class C18(Prop):
     id = "C18"
     rule = ("P cases as for C01 plus families built to maximise pointer following (k records each naming through a 16-hop chain, "
@@ -1840,4 +1894,4 @@ class C17(Prop):
         return [io[0][:7]] if io else ["noout"]
 
 
-REGISTRY = {"C16": C16, "C17": C17, "C06": C06, "C07": C07, "C08": C08, "C09": C09, "C10": C10, "C11": C11, "C01": C01, "C18": C18, "C12": C12, "C03": C03, "C04": C04, "C05": C05, "C13": C13, "C14": C14}
+REGISTRY = {"C02": C02, "C16": C16, "C17": C17, "C06": C06, "C07": C07, "C08": C08, "C09": C09, "C10": C10, "C11": C11, "C01": C01, "C18": C18, "C12": C12, "C03": C03, "C04": C04, "C05": C05, "C13": C13, "C14": C14}
